@@ -44,7 +44,8 @@
 From Coq Require Import ZArith.
 From V.model Require Import Base Deb822Lex Deb822Parse Grammar Lossy LossySpec Derive TypedDocs.
 From V.gen Require Import Structs_gen.
-From V.proofs Require Import LossyP LossyRtP DeriveP TypedCodecP TypedCanonP TypedDocsP TypedSpecP.
+From V.model Require Import Codecs.
+From V.proofs Require Import LossyP LossyRtP DeriveP TypedCodecP TypedCanonP TypedDocsP TypedSpecP TypedClosedP.
 
 (* ------------------------------------------------------------------ the known classes *)
 Definition Known_files_hash_word (s : str) : Prop :=
@@ -447,6 +448,52 @@ Check doc_total : forall E ext_parse s,
   tvalue (parse_removal E ext_parse s) /\ tvalue (parse_buildinfo E ext_parse s) /\
   tvalue (parse_dep3 E ext_parse s) /\ tvalue (parse_repositories E ext_parse s).
 Print Assumptions doc_total.
+
+(* ================================================================== acceptance, exactly *)
+(* accepted  <->  strictly parsed, exactly one source paragraph, every other paragraph a binary, every
+   paragraph's struct reads (control); gate, header first, Files / License paragraphs (copyright) *)
+Theorem doc_accept_control : forall E ext_parse s c,
+  parse_control E ext_parse s = TOk c <-> exists t, from_str s = Ok t /\ control_spec E ext_parse (paragraphs t) c.
+Proof.
+  intros E pa s c. split; [apply control_sound|]. intros (t & Ht & Hs). eapply control_complete; eassumption.
+Qed.
+Check doc_accept_control : forall E ext_parse s c,
+  parse_control E ext_parse s = TOk c <-> exists t, from_str s = Ok t /\ control_spec E ext_parse (paragraphs t) c.
+Print Assumptions doc_accept_control.
+
+Theorem doc_accept_copyright : forall E ext_parse s c,
+  parse_copyright E ext_parse s = TOk c <-> exists t, from_str s = Ok t /\ copyright_spec E ext_parse s (paragraphs t) c.
+Proof.
+  intros E pa s c. split; [apply copyright_sound|]. intros (t & Ht & Hs). eapply copyright_complete; eassumption.
+Qed.
+Check doc_accept_copyright : forall E ext_parse s c,
+  parse_copyright E ext_parse s = TOk c <-> exists t, from_str s = Ok t /\ copyright_spec E ext_parse s (paragraphs t) c.
+Print Assumptions doc_accept_copyright.
+
+(* ================================================================== no assumption left *)
+(* Release and Removal use no external codec: for ANY codecs, nothing is assumed *)
+Theorem doc_stable_release_closed : forall E ext_print ext_parse s v, ~ Known_lossy_noncanonical s ->
+  parse_release E ext_parse s = TOk v -> stable (parse_release E ext_parse) (print_release E ext_print) v.
+Proof. intros E pr pa s v Hk H. eapply doc_stable_release; [rewrite release_no_ext; apply ext_stable_nil|exact Hk|exact H]. Qed.
+Check doc_stable_release_closed : forall E ext_print ext_parse s v, ~ Known_lossy_noncanonical s ->
+  parse_release E ext_parse s = TOk v -> stable (parse_release E ext_parse) (print_release E ext_print) v.
+Print Assumptions doc_stable_release_closed.
+
+Theorem doc_stable_removal_closed : forall E ext_print ext_parse s v,
+  parse_removal E ext_parse s = TOk v -> stable (parse_removal E ext_parse) (print_removal E ext_print) v.
+Proof. intros E pr pa s v H. eapply doc_stable_removal; [rewrite removal_no_ext; apply ext_stable_nil|exact H]. Qed.
+Check doc_stable_removal_closed : forall E ext_print ext_parse s v,
+  parse_removal E ext_parse s = TOk v -> stable (parse_removal E ext_parse) (print_removal E ext_print) v.
+Print Assumptions doc_stable_removal_closed.
+
+(* copyright with C18's model of License (Codecs.license_from_str / license_to_string) as its only
+   external codec: all texts outside the '#'-item class, nothing assumed *)
+Theorem doc_stable_copyright_closed : forall s c, ~ Known_files_hash_word s ->
+  parse_copyright license lic_parse s = TOk c -> stable (parse_copyright license lic_parse) (print_copyright license lic_print) c.
+Proof. intros s c Hk H. eapply doc_stable_copyright; try apply lic_stable; eassumption. Qed.
+Check doc_stable_copyright_closed : forall s c, ~ Known_files_hash_word s ->
+  parse_copyright license lic_parse s = TOk c -> stable (parse_copyright license lic_parse) (print_copyright license lic_print) c.
+Print Assumptions doc_stable_copyright_closed.
 
 (* ================================================================== the headline: everything outside the known classes *)
 Theorem C20_partial :
